@@ -144,6 +144,166 @@ theorem Bounded.reserve_define {A : Prop} {st sb : State} {o : Obj}
   rw [define_ne _ _ _ hne]
   exact h.bound x hx
 
+/-- Allocation-only steps keep a closed heap closed. -/
+theorem Ext.closed_heap {A : Prop} {st st' : State} (hE : Ext A st st')
+    (hcl : Closed st.objs st.next) : Closed st'.objs st'.next where
+  bound := hE.bound
+  refs := by
+    intro x o ho y hy
+    by_cases hx : x < st.next
+    · rw [hE.old x hx] at ho
+      have hs := hcl.refs x o ho y hy
+      have hylt : y < st.next := by
+        apply Nat.lt_of_not_le
+        intro hle
+        rw [hcl.bound y hle] at hs
+        cases hs
+      rw [hE.old y hylt]
+      exact hs
+    · exact (hE.closed x o (Nat.le_of_not_lt hx) ho _ hy).2.2
+
+/-! ### `lookup`, `dictSet`, `dictUpdate` -/
+
+theorem lookup_cons {β : Type} (k k' : Nat) (v : β) (r : List (Nat × β)) :
+    lookup k ((k', v) :: r) = if k' = k then some v else lookup k r := rfl
+
+theorem lookup_some_mem_keys {β : Type} {k : Nat} {l : List (Nat × β)} {v : β}
+    (h : lookup k l = some v) : k ∈ l.map (·.1) := by
+  induction l with
+  | nil => cases h
+  | cons p r ih =>
+    obtain ⟨k', v'⟩ := p
+    rw [lookup_cons] at h
+    by_cases hk : k' = k
+    · simp [hk]
+    · simp only [hk, if_false] at h
+      simp [ih h]
+
+theorem lookup_some_mem {β : Type} {k : Nat} {l : List (Nat × β)} {v : β}
+    (h : lookup k l = some v) : (k, v) ∈ l := by
+  induction l with
+  | nil => cases h
+  | cons p r ih =>
+    obtain ⟨k', v'⟩ := p
+    rw [lookup_cons] at h
+    by_cases hk : k' = k
+    · simp only [hk, if_true, Option.some.injEq] at h
+      simp [hk, h]
+    · simp only [hk, if_false] at h
+      exact List.mem_cons_of_mem _ (ih h)
+
+theorem lookup_isSome_of_mem_keys {β : Type} {k : Nat} {l : List (Nat × β)}
+    (h : k ∈ l.map (·.1)) : (lookup k l).isSome = true := by
+  induction l with
+  | nil => cases h
+  | cons p r ih =>
+    obtain ⟨k', v'⟩ := p
+    rw [lookup_cons]
+    by_cases hk : k' = k
+    · simp [hk]
+    · simp only [hk, if_false]
+      apply ih
+      simp only [List.map_cons, List.mem_cons] at h
+      rcases h with h | h
+      · exact absurd h.symm hk
+      · exact h
+
+/-! ### `dictSet` / `dictUpdate` -/
+
+theorem lookup_dictSet (k k' : Name) (v : Val) (l : List (Name × Val)) :
+    lookup k (dictSet k' v l) = if k' = k then some v else lookup k l := by
+  induction l with
+  | nil => simp [dictSet, lookup]
+  | cons p r ih =>
+    obtain ⟨k'', v''⟩ := p
+    simp only [dictSet]
+    by_cases h1 : k'' = k'
+    · subst h1
+      simp only [if_true, lookup_cons]
+      by_cases h2 : k'' = k <;> simp [h2]
+    · simp only [h1, if_false, lookup_cons, ih]
+      by_cases h2 : k'' = k
+      · subst h2
+        simp [Ne.symm h1]
+      · simp [h2]
+
+theorem dictUpdate_cons (base : List (Name × Val)) (p : Name × Val) (new : List (Name × Val)) :
+    dictUpdate base (p :: new) = dictSet p.1 p.2 (dictUpdate base new) := rfl
+
+theorem lookup_dictUpdate (k : Name) (base new : List (Name × Val)) :
+    lookup k (dictUpdate base new) =
+      match lookup k new with
+      | some v => some v
+      | none => lookup k base := by
+  induction new with
+  | nil => rfl
+  | cons p r ih =>
+    obtain ⟨k', v'⟩ := p
+    rw [dictUpdate_cons, lookup_dictSet, lookup_cons, ih]
+    by_cases h : k' = k <;> simp [h]
+
+theorem mem_dictSet {k : Name} {v : Val} {l : List (Name × Val)} {p : Name × Val}
+    (h : p ∈ dictSet k v l) : p = (k, v) ∨ p ∈ l := by
+  induction l with
+  | nil =>
+    simp only [dictSet, List.mem_singleton] at h
+    exact Or.inl h
+  | cons q r ih =>
+    obtain ⟨k'', v''⟩ := q
+    simp only [dictSet] at h
+    by_cases h1 : k'' = k
+    · simp only [h1, if_true, List.mem_cons] at h
+      rcases h with h | h
+      · exact Or.inl h
+      · exact Or.inr (List.mem_cons_of_mem _ h)
+    · simp only [h1, if_false, List.mem_cons] at h
+      rcases h with h | h
+      · exact Or.inr (by simp [h])
+      · rcases ih h with h | h
+        · exact Or.inl h
+        · exact Or.inr (List.mem_cons_of_mem _ h)
+
+theorem mem_dictUpdate {base new : List (Name × Val)} {p : Name × Val}
+    (h : p ∈ dictUpdate base new) : p ∈ base ∨ p ∈ new := by
+  induction new with
+  | nil => exact Or.inl h
+  | cons q r ih =>
+    rw [dictUpdate_cons] at h
+    rcases mem_dictSet h with h | h
+    · exact Or.inr (by simp [h])
+    · rcases ih h with h | h
+      · exact Or.inl h
+      · exact Or.inr (List.mem_cons_of_mem _ h)
+
+/-- Removing the entries of another key does not change what a key is bound to. -/
+theorem lookup_filter_ne {β : Type} (k name : Nat) (hk : k ≠ name) (l : List (Nat × β)) :
+    lookup k (l.filter (fun p => p.1 != name)) = lookup k l := by
+  induction l with
+  | nil => rfl
+  | cons p r ih =>
+    obtain ⟨k', v⟩ := p
+    by_cases h : k' = name
+    · subst h
+      have hne : ¬ k' = k := fun e => hk e.symm
+      simp [List.filter, lookup, hne, ih]
+    · simp [h, lookup_cons, ih]
+
+/-- What `base.__init__` puts on a new instance are atoms (`None`). -/
+theorem baseInitAttrs_atom (k : Kind) : ∀ p ∈ baseInitAttrs k, p.2.isAtom = true := by
+  intro p hp
+  cases k <;> simp only [baseInitAttrs, List.mem_singleton, List.not_mem_nil] at hp
+  subst hp
+  rfl
+
+theorem lookup_baseInitAttrs {k : Kind} {n : Name} {v : Val}
+    (h : lookup n (baseInitAttrs k) = some v) : k = .cfitness ∧ n = cvName ∧ v = .atom noneAtom := by
+  cases k <;> simp only [baseInitAttrs, lookup] at h <;> try cases h
+  split at h
+  · rename_i hn
+    cases h
+    exact ⟨rfl, hn.symm, rfl⟩
+  · cases h
+
 /-! ### `mapSt` -/
 
 theorem mapSt_nil {σ α β : Type} (f : σ → α → Option (σ × β)) (s : σ) :
@@ -226,8 +386,9 @@ theorem newInst_succ (ct : ClassTable) (n : Nat) (st : State) (c : ClsId) (items
         match mapSt (instStep ct n) ⟨st.objs, st.next + 1, st.memo⟩ ci.dictInst with
         | none => none
         | some (sb, attrs) =>
-          some (⟨define sb.objs st.next ⟨c, items, attrs, ci.kind != .node⟩, sb.next, sb.memo⟩,
-            st.next) := by
+          some (⟨define sb.objs st.next
+              ⟨c, items, dictUpdate attrs (baseInitAttrs ci.kind), ci.kind != .node⟩, sb.next,
+              sb.memo⟩, st.next) := by
   rw [newInst]
   rfl
 
@@ -237,14 +398,48 @@ def AttrsIn (objs : Oid → Option Obj) (lo hi : Nat) (l : List (Name × ClsId))
   attrs.map (·.1) = l.map (·.1) ∧
   ∀ p ∈ attrs, ∃ y, p.2 = Val.ref y ∧ lo ≤ y ∧ y < hi ∧ (objs y).isSome = true
 
+/-- The nested instances, the reference attributes, what `base.__init__` adds (atoms) and atom
+items make a new object an allocation-only step. -/
+theorem Ext.newInst {s sb : State} {l : List (Name × ClsId)} {attrs : List (Name × Val)}
+    (c : ClsId) (items : List Val) (k : Kind) (mu : Bool)
+    (hE : Ext True ⟨s.objs, s.next + 1, s.memo⟩ sb)
+    (hA : AttrsIn sb.objs (s.next + 1) sb.next l attrs)
+    (hitems : ∀ v ∈ items, v.isAtom = true) :
+    Ext True s ⟨define sb.objs s.next ⟨c, items, dictUpdate attrs (baseInitAttrs k), mu⟩, sb.next,
+      sb.memo⟩ := by
+  refine Ext.reserve_define hE ?_
+  intro v hv
+  simp only [Obj.children, List.mem_append, List.mem_map] at hv
+  rcases hv with hv | ⟨q, hq, rfl⟩
+  · have := hitems v hv
+    cases v with
+    | atom a => trivial
+    | ref y => cases this
+  · rcases mem_dictUpdate hq with hq | hq
+    · obtain ⟨y, hy, hy1, hy2, hy3⟩ := hA.2 q hq
+      rw [hy]
+      exact ⟨Nat.le_of_succ_le hy1, hy2, define_isSome _ _ _ hy3⟩
+    · have := baseInitAttrs_atom k q hq
+      cases hq2 : q.2 with
+      | atom a => trivial
+      | ref y => rw [hq2] at this; cases this
+
+/-- … in particular an item-less one. -/
+theorem Ext.newInst_nil {s sb : State} {l : List (Name × ClsId)} {attrs : List (Name × Val)}
+    (c : ClsId) (k : Kind) (mu : Bool) (hE : Ext True ⟨s.objs, s.next + 1, s.memo⟩ sb)
+    (hA : AttrsIn sb.objs (s.next + 1) sb.next l attrs) :
+    Ext True s ⟨define sb.objs s.next ⟨c, [], dictUpdate attrs (baseInitAttrs k), mu⟩, sb.next,
+      sb.memo⟩ :=
+  Ext.newInst c [] k mu hE hA (fun _ h => by cases h)
+
 /-- The attribute loop, given that instantiation with fuel `n` behaves. -/
 theorem instLoop_spec (ct : ClassTable) (n : Nat)
     (hN : ∀ (s : State) (c' : ClsId), c' < ct.length → c' < n →
       ∃ s', newInst ct n s c' [] = some (s', s.next) ∧
-        (Bounded s → Ext False s s' ∧ (s'.objs s.next).isSome = true)) :
+        (Bounded s → Ext True s s' ∧ (s'.objs s.next).isSome = true)) :
     ∀ (l : List (Name × ClsId)) (s : State), (∀ p ∈ l, p.2 < ct.length ∧ p.2 < n) →
       ∃ s' attrs, mapSt (instStep ct n) s l = some (s', attrs) ∧
-        (Bounded s → Ext False s s' ∧ AttrsIn s'.objs s.next s'.next l attrs) := by
+        (Bounded s → Ext True s s' ∧ AttrsIn s'.objs s.next s'.next l attrs) := by
   intro l
   induction l with
   | nil =>
@@ -278,15 +473,17 @@ theorem instLoop_spec (ct : ClassTable) (n : Nat)
 
 /-- `cls(items)` on a well-founded class table: succeeds with enough fuel, returns the reserved
 oid `st.next`, and (if nothing was allocated beyond `st.next`) only allocates: the nested
-instances live in `[st.next+1, sb.next)`, refer only to each other, and the new object gets the
-given items and one reference attribute per `dict_inst` entry. -/
+instances live in `[st.next+1, sb.next)`, refer only to each other (or hold atoms), and the new
+object gets the given items, one reference attribute per `dict_inst` entry, and over them what
+`base.__init__` sets. -/
 theorem newInst_spec (ct : ClassTable) (hct : CTOk ct) :
     ∀ (fuel : Nat) (st : State) (c : ClsId) (items : List Val), c < ct.length → c < fuel →
       ∃ ci sb attrs, ct[c]? = some ci ∧
         newInst ct fuel st c items =
-          some (⟨define sb.objs st.next ⟨c, items, attrs, ci.kind != .node⟩, sb.next, sb.memo⟩,
-            st.next) ∧
-        (Bounded st → Ext False ⟨st.objs, st.next + 1, st.memo⟩ sb ∧
+          some (⟨define sb.objs st.next
+            ⟨c, items, dictUpdate attrs (baseInitAttrs ci.kind), ci.kind != .node⟩, sb.next,
+            sb.memo⟩, st.next) ∧
+        (Bounded st → Ext True ⟨st.objs, st.next + 1, st.memo⟩ sb ∧
           AttrsIn sb.objs (st.next + 1) sb.next ci.dictInst attrs) := by
   intro fuel
   induction fuel with
@@ -296,19 +493,13 @@ theorem newInst_spec (ct : ClassTable) (hct : CTOk ct) :
     obtain ⟨ci, hci⟩ : ∃ ci, ct[c]? = some ci := ⟨ct[c], List.getElem?_eq_getElem hc⟩
     have hN : ∀ (s : State) (c' : ClsId), c' < ct.length → c' < n →
         ∃ s', newInst ct n s c' [] = some (s', s.next) ∧
-          (Bounded s → Ext False s s' ∧ (s'.objs s.next).isSome = true) := by
+          (Bounded s → Ext True s s' ∧ (s'.objs s.next).isSome = true) := by
       intro s c' hc' hc'n
       obtain ⟨ci', sb, attrs, _, hrun, hrest⟩ := ih s c' [] hc' hc'n
       refine ⟨_, hrun, ?_⟩
       intro hb
-      obtain ⟨hE, _, hvals⟩ := hrest (by exact hb)
-      refine ⟨Ext.reserve_define hE ?_, define_same_isSome _ _ _⟩
-      intro v hv
-      simp only [Obj.children, List.nil_append, List.mem_map] at hv
-      obtain ⟨q, hq, rfl⟩ := hv
-      obtain ⟨y, hy, hy1, hy2, hy3⟩ := hvals q hq
-      rw [hy]
-      exact ⟨Nat.le_of_succ_le hy1, hy2, define_isSome _ _ _ hy3⟩
+      obtain ⟨hE, hA⟩ := hrest (by exact hb)
+      exact ⟨Ext.newInst_nil _ _ _ hE hA, define_same_isSome _ _ _⟩
     have hl : ∀ p ∈ ci.dictInst, p.2 < ct.length ∧ p.2 < n := by
       intro p hp
       have : p.2 < c := hct c ci hci p hp
@@ -327,18 +518,12 @@ theorem newInst_spec (ct : ClassTable) (hct : CTOk ct) :
 theorem newInst_nil_spec (ct : ClassTable) (hct : CTOk ct) (fuel : Nat) (s : State) (c : ClsId)
     (hc : c < ct.length) (hf : c < fuel) :
     ∃ s', newInst ct fuel s c [] = some (s', s.next) ∧
-      (Bounded s → Ext False s s' ∧ (s'.objs s.next).isSome = true) := by
+      (Bounded s → Ext True s s' ∧ (s'.objs s.next).isSome = true) := by
   obtain ⟨ci', sb, attrs, _, hrun, hrest⟩ := newInst_spec ct hct fuel s c [] hc hf
   refine ⟨_, hrun, ?_⟩
   intro hb
-  obtain ⟨hE, _, hvals⟩ := hrest hb
-  refine ⟨Ext.reserve_define hE ?_, define_same_isSome _ _ _⟩
-  intro v hv
-  simp only [Obj.children, List.nil_append, List.mem_map] at hv
-  obtain ⟨q, hq, rfl⟩ := hv
-  obtain ⟨y, hy, hy1, hy2, hy3⟩ := hvals q hq
-  rw [hy]
-  exact ⟨Nat.le_of_succ_le hy1, hy2, define_isSome _ _ _ hy3⟩
+  obtain ⟨hE, hA⟩ := hrest hb
+  exact ⟨Ext.newInst_nil _ _ _ hE hA, define_same_isSome _ _ _⟩
 
 /-! ### "From success" versions (no assumption on the class table) -/
 
@@ -346,10 +531,10 @@ theorem newInst_nil_spec (ct : ClassTable) (hct : CTOk ct) (fuel : Nat) (s : Sta
 theorem instLoop_of_eq (ct : ClassTable) (n : Nat)
     (hN : ∀ (s s' : State) (c' : ClsId) (y : Oid), Bounded s →
       newInst ct n s c' [] = some (s', y) →
-      y = s.next ∧ Ext False s s' ∧ (s'.objs s.next).isSome = true) :
+      y = s.next ∧ Ext True s s' ∧ (s'.objs s.next).isSome = true) :
     ∀ (l : List (Name × ClsId)) (s s' : State) (attrs : List (Name × Val)), Bounded s →
       mapSt (instStep ct n) s l = some (s', attrs) →
-      Ext False s s' ∧ AttrsIn s'.objs s.next s'.next l attrs := by
+      Ext True s s' ∧ AttrsIn s'.objs s.next s'.next l attrs := by
   intro l
   induction l with
   | nil =>
@@ -382,29 +567,17 @@ theorem instLoop_of_eq (ct : ClassTable) (n : Nat)
       · obtain ⟨y, hy, hy1, hy2, hy3⟩ := hvals q hq
         exact ⟨y, hy, Nat.le_trans hE1.le hy1, hy2, hy3⟩
 
-/-- The nested instances and the reference attributes make an item-less new object an
-allocation-only step. -/
-theorem Ext.newInst_nil {s sb : State} {l : List (Name × ClsId)} {attrs : List (Name × Val)}
-    (c : ClsId) (mu : Bool) (hE : Ext False ⟨s.objs, s.next + 1, s.memo⟩ sb)
-    (hA : AttrsIn sb.objs (s.next + 1) sb.next l attrs) :
-    Ext False s ⟨define sb.objs s.next ⟨c, [], attrs, mu⟩, sb.next, sb.memo⟩ := by
-  refine Ext.reserve_define hE ?_
-  intro v hv
-  simp only [Obj.children, List.nil_append, List.mem_map] at hv
-  obtain ⟨q, hq, rfl⟩ := hv
-  obtain ⟨y, hy, hy1, hy2, hy3⟩ := hA.2 q hq
-  rw [hy]
-  exact ⟨Nat.le_of_succ_le hy1, hy2, define_isSome _ _ _ hy3⟩
-
 /-- `cls(items)`, from success: the result is the reserved oid `st.next`, the nested instances
-live in `[st.next+1, sb.next)` and refer only to each other, and the new object gets the given
-items and one reference attribute per `dict_inst` entry. -/
+live in `[st.next+1, sb.next)` and refer only to each other (or hold atoms), and the new object
+gets the given items, one reference attribute per `dict_inst` entry, and over them what
+`base.__init__` sets. -/
 theorem newInst_of_eq (ct : ClassTable) :
     ∀ (fuel : Nat) (st st' : State) (c : ClsId) (items : List Val) (x : Oid), Bounded st →
       newInst ct fuel st c items = some (st', x) →
       ∃ ci sb attrs, ct[c]? = some ci ∧ x = st.next ∧
-        st' = ⟨define sb.objs st.next ⟨c, items, attrs, ci.kind != .node⟩, sb.next, sb.memo⟩ ∧
-        Ext False ⟨st.objs, st.next + 1, st.memo⟩ sb ∧
+        st' = ⟨define sb.objs st.next
+          ⟨c, items, dictUpdate attrs (baseInitAttrs ci.kind), ci.kind != .node⟩, sb.next, sb.memo⟩ ∧
+        Ext True ⟨st.objs, st.next + 1, st.memo⟩ sb ∧
         AttrsIn sb.objs (st.next + 1) sb.next ci.dictInst attrs := by
   intro fuel
   induction fuel with
@@ -421,14 +594,28 @@ theorem newInst_of_eq (ct : ClassTable) :
         cases h
         have hN : ∀ (s s' : State) (c' : ClsId) (y : Oid), Bounded s →
             newInst ct n s c' [] = some (s', y) →
-            y = s.next ∧ Ext False s s' ∧ (s'.objs s.next).isSome = true := by
+            y = s.next ∧ Ext True s s' ∧ (s'.objs s.next).isSome = true := by
           intro s s' c' y hbs hs
           obtain ⟨ci', sb', attrs', _, rfl, rfl, hE, hA⟩ := ih s s' c' [] y hbs hs
-          exact ⟨rfl, Ext.newInst_nil _ _ hE hA, define_same_isSome _ _ _⟩
+          exact ⟨rfl, Ext.newInst_nil _ _ _ hE hA, define_same_isSome _ _ _⟩
         have hba : Bounded ⟨st.objs, st.next + 1, st.memo⟩ :=
           fun y hy => hb y (Nat.le_of_succ_le hy)
         obtain ⟨hE, hA⟩ := instLoop_of_eq ct n hN ci.dictInst _ _ _ hba hrun
         exact ⟨ci, sb, attrs, hci, rfl, rfl, hE, hA⟩
+
+/-- Item-less instantiation, from success, is an allocation-only step. -/
+theorem newInst_nil_of_eq (ct : ClassTable) {n : Nat} {s s' : State} {c' : ClsId} {y : Oid}
+    (hb : Bounded s) (h : newInst ct n s c' [] = some (s', y)) :
+    y = s.next ∧ Ext True s s' ∧ (s'.objs s.next).isSome = true := by
+  obtain ⟨ci', sb', attrs', _, rfl, rfl, hE, hA⟩ := newInst_of_eq ct n s s' c' [] y hb h
+  exact ⟨rfl, Ext.newInst_nil _ _ _ hE hA, define_same_isSome _ _ _⟩
+
+/-- Instantiation with atom items, from success, is an allocation-only step. -/
+theorem newInst_ext_of_eq (ct : ClassTable) {n : Nat} {s s' : State} {c : ClsId} {items : List Val}
+    {x : Oid} (hb : Bounded s) (hitems : ∀ v ∈ items, v.isAtom = true)
+    (h : newInst ct n s c items = some (s', x)) : x = s.next ∧ Ext True s s' := by
+  obtain ⟨ci', sb', attrs', _, rfl, rfl, hE, hA⟩ := newInst_of_eq ct n s s' c items x hb h
+  exact ⟨rfl, Ext.newInst _ _ _ _ hE hA hitems⟩
 
 /-- `creator.<cls>(items)`, from success, on an explicitly given state. -/
 theorem create_of_eq (ct : ClassTable) (objs : Oid → Option Obj) (next : Nat)
@@ -436,8 +623,9 @@ theorem create_of_eq (ct : ClassTable) (objs : Oid → Option Obj) (next : Nat)
     (hb : ∀ y, next ≤ y → objs y = none)
     (h : create ct ⟨objs, next, memo⟩ c items = some (st', x)) :
     ∃ ci sb attrs, ct[c]? = some ci ∧ x = next ∧
-      st' = ⟨define sb.objs next ⟨c, items, attrs, ci.kind != .node⟩, sb.next, sb.memo⟩ ∧
-      Ext False ⟨objs, next + 1, memo⟩ sb ∧
+      st' = ⟨define sb.objs next
+        ⟨c, items, dictUpdate attrs (baseInitAttrs ci.kind), ci.kind != .node⟩, sb.next, sb.memo⟩ ∧
+      Ext True ⟨objs, next + 1, memo⟩ sb ∧
       AttrsIn sb.objs (next + 1) sb.next ci.dictInst attrs :=
   newInst_of_eq ct (ct.length + 1) ⟨objs, next, memo⟩ st' c items x hb h
 
@@ -445,7 +633,7 @@ theorem create_of_eq (ct : ClassTable) (objs : Oid → Option Obj) (next : Nat)
 theorem instAttrs_ext (ct : ClassTable) (hct : CTOk ct) (st : State) (c : ClsId) (ci : ClassInfo)
     (hci : ct[c]? = some ci) :
     ∃ st' attrs, instAttrs ct st ci.dictInst = some (st', attrs) ∧
-      (Bounded st → Ext False st st' ∧ AttrsIn st'.objs st.next st'.next ci.dictInst attrs) := by
+      (Bounded st → Ext True st st' ∧ AttrsIn st'.objs st.next st'.next ci.dictInst attrs) := by
   have hc : c < ct.length := by
     rcases Nat.lt_or_ge c ct.length with h | h
     · exact h
@@ -462,7 +650,7 @@ theorem instAttrs_ext (ct : ClassTable) (hct : CTOk ct) (st : State) (c : ClsId)
 theorem instAttrs_ext_of_eq (ct : ClassTable) (hct : CTOk ct) (st : State) (c : ClsId)
     (ci : ClassInfo) (hci : ct[c]? = some ci) (hb : Bounded st) {st' : State}
     {attrs : List (Name × Val)} (h : instAttrs ct st ci.dictInst = some (st', attrs)) :
-    Ext False st st' ∧ AttrsIn st'.objs st.next st'.next ci.dictInst attrs := by
+    Ext True st st' ∧ AttrsIn st'.objs st.next st'.next ci.dictInst attrs := by
   obtain ⟨st2, attrs2, h2, hrest⟩ := instAttrs_ext ct hct st c ci hci
   rw [h2] at h
   cases h
@@ -471,7 +659,8 @@ theorem instAttrs_ext_of_eq (ct : ClassTable) (hct : CTOk ct) (st : State) (c : 
 /-- What `init_type` does to the interpreter state: it only allocates.  The memo is untouched, old
 slots (also reserved, still undefined ones below `st.next`) keep their content, one attribute per
 `dict_inst` entry is produced, each a reference to an object allocated by this call, and the
-objects allocated by this call are defined and refer only to objects allocated by this call. -/
+objects allocated by this call are defined and refer only to objects allocated by this call (or
+hold atoms: what `base.__init__` puts on a nested instance). -/
 theorem instAttrs_spec (ct : ClassTable) (hct : CTOk ct) (st : State) (c : ClsId) (ci : ClassInfo)
     (hci : ct[c]? = some ci) (hb : ∀ x, st.next ≤ x → st.objs x = none) :
     ∃ st' attrs, instAttrs ct st ci.dictInst = some (st', attrs) ∧
@@ -481,7 +670,7 @@ theorem instAttrs_spec (ct : ClassTable) (hct : CTOk ct) (st : State) (c : ClsId
       attrs.map (·.1) = ci.dictInst.map (·.1) ∧
       (∀ p ∈ attrs, ∃ y, p.2 = Val.ref y ∧ st.next ≤ y ∧ y < st'.next ∧ (st'.objs y).isSome = true) ∧
       (∀ x o, st.next ≤ x → st'.objs x = some o →
-        ∀ c' ∈ o.children, ∃ y, c' = Val.ref y ∧ st.next ≤ y ∧ y < st'.next ∧
+        ∀ c' ∈ o.children, c'.isAtom = true ∨ ∃ y, c' = Val.ref y ∧ st.next ≤ y ∧ y < st'.next ∧
           (st'.objs y).isSome = true) := by
   obtain ⟨st', attrs, hrun, hrest⟩ := instAttrs_ext ct hct st c ci hci
   obtain ⟨hE, hnames, hvals⟩ := hrest hb
@@ -489,7 +678,7 @@ theorem instAttrs_spec (ct : ClassTable) (hct : CTOk ct) (st : State) (c : ClsId
   intro x o hx ho c' hc'
   have := hE.closed x o hx ho c' hc'
   cases c' with
-  | atom a => exact this.elim
-  | ref y => exact ⟨y, rfl, this⟩
+  | atom a => exact Or.inl rfl
+  | ref y => exact Or.inr ⟨y, rfl, this⟩
 
 end Heap
